@@ -2,5 +2,5 @@
     sumbool map to OCaml natives; N, positive, nat, string, ascii stay the extracted inductives. *)
 From Coq Require Import ExtrOcamlBasic.
 From RS Require Import Base.Bytes Base.Outcome Interp.Run Pkt.Csum.
-Set Extraction Output Directory ".".
+
 Extraction "rsmodel.ml" run csum_partial csum_fold.
